@@ -56,7 +56,7 @@ func C01(p *engine.Prog, r *engine.Report) {
 	// ---------------- R8/R9: nodes with different histories (restarted, fast-synced, reorged) hold the same
 	// derived data: shared with the properties that own the mechanisms
 	c07R5(p, r, "C01-R8")
-	importRules(p, r, "C10", map[string]string{"C10-R4": "C01-R8", "C10-R5": "C01-R8", "C10-R6": "C01-R8"})
+	importRules(p, r, "C10", map[string]string{"C10-R4": "C01-R8", "C10-R5": "C01-R8", "C10-R6": "C01-R8", "C10-R7": "C01-R8"})
 	importRules(p, r, "C17", map[string]string{"C17-R3": "C01-R9", "C17-R5": "C01-R9", "C17-R7": "C01-R9", "C17-R9": "C01-R9"})
 	r.Floor("C01-R7", 3, "view constructors")
 }
